@@ -338,3 +338,311 @@ def config_batches(rng, tier):
         c = K.mk(tree, m, '/s100.bin', [('Origin', 'http://o')], entry='preq', kind='echo-buffer-cut'); c.alloc = alloc; cases.append(c)
     out.append((env, tree, cases))
     return out
+
+# ================================================================================================ second pass
+# Features a maintainer of a static web server adds on this code path, and the RELATION of inputs that exposes a careless
+# implementation of each (AUDIT2.md has the table).  Nothing below is answered differently by today's code - every family is
+# there so that the day the feature arrives its first careless version meets the input it needs:
+#   feature_batch    request headers the server ignores so far (Expect, conditionals, Connection / Upgrade / TE, Transfer- and
+#                    Content-Encoding, Content-MD5, Forwarded, Prefer, Max-Forwards, Cookie, Authorization, Host, Accept-*) with values
+#                    that MEAN something, related to a second header, to the bytes after the head, to the method and to the version
+#                    x GET / HEAD / OPTIONS / POST x route kinds x both entry points; text that becomes a line break only after
+#                    DECODING (percent, base64) on every such header and in the request target; the same under short writes
+#   neighbour_batch  files NEXT to the served ones (precompressed .gz / .br, larger, smaller, empty, older, newer) x Accept-Encoding
+#                    x Range x methods; one-step histories (the same path asked again with another method / range / encoding)
+#   wire_batch       what the client does after sending: a transport that stops taking bytes (at once, after k bytes) at every write
+#                    site; several requests sent in one go; Content-Length against the bytes that follow; chunked bodies; the
+#                    request buffer ending inside the request line, inside the blank line, inside a multi-byte character; values
+#                    longer than any cut a logger applies, made of 2-, 3- and 4-byte characters in every alignment
+import base64, hashlib, zlib
+
+INJ = '%0d%0aVary:%20' + MARK          # a line break only after percent-decoding
+PAST, FUTURE = 'Sat, 01 Jan 2000 00:00:00 GMT', 'Fri, 01 Jan 2100 00:00:00 GMT'
+FORM = b'a=1&b=2'
+def b64(s): return base64.b64encode(s if isinstance(s, bytes) else s.encode()).decode()
+CHUNKED = b'7\r\na=1&b=2\r\n0\r\n\r\n'
+
+def T(tag, hs, body=b'', version='HTTP/1.1'): return (tag, hs, body, version)
+
+def triggers():
+    t = [
+        # an interim answer: Expect against the body that is (not) there, the length that is (not) announced, the version
+        T('expect', [('Expect', '100-continue')]), T('expect+cl+body', [('Expect', '100-continue'), ('Content-Length', '7')], FORM),
+        T('expect+cl0', [('Expect', '100-continue'), ('Content-Length', '0')]), T('expect+cl-body', [('Expect', '100-continue'), ('Content-Length', '7')]),
+        T('expect-body', [('Expect', '100-continue')], FORM), T('expect/case', [('expect', '100-Continue')]), T('expect/unknown', [('Expect', '200-ok')]),
+        T('expect x2', [('Expect', '100-continue'), ('Expect', '100-continue')]), T('expect/1.0', [('Expect', '100-continue'), ('Content-Length', '7')], FORM, 'HTTP/1.0'),
+        T('expect+chunked', [('Expect', '100-continue'), ('Transfer-Encoding', 'chunked')], CHUNKED), T('expect/list', [('Expect', '100-continue, x=y')]),
+        # conditional requests: the validator against the file (older, newer, anything, nothing), two validators, validator and Range
+        T('ims/past', [('If-Modified-Since', PAST)]), T('ims/future', [('If-Modified-Since', FUTURE)]), T('ims/bad', [('If-Modified-Since', 'yesterday')]),
+        T('ims/nanos', [('If-Modified-Since', '1700000000000000000')]), T('ims/nanos-future', [('If-Modified-Since', '4100000000000000000')]),
+        T('ims/huge', [('If-Modified-Since', '9' * 30)]), T('ims/empty', [('If-Modified-Since', '')]), T('ius/past', [('If-Unmodified-Since', PAST)]),
+        T('ius/future', [('If-Unmodified-Since', FUTURE)]), T('inm/*', [('If-None-Match', '*')]), T('inm/tag', [('If-None-Match', '"abc"')]),
+        T('inm/weak', [('If-None-Match', 'W/"abc"')]), T('inm/list', [('If-None-Match', '"a", W/"b", *')]), T('inm/empty', [('If-None-Match', '')]),
+        T('im/*', [('If-Match', '*')]), T('im/tag', [('If-Match', '"abc"')]), T('inm+ims', [('If-None-Match', '*'), ('If-Modified-Since', PAST)]),
+        T('inm+ims/2', [('If-None-Match', '"x"'), ('If-Modified-Since', FUTURE)]), T('if-range/past', [('Range', 'bytes=0-3'), ('If-Range', PAST)]),
+        T('if-range/future', [('If-Range', FUTURE), ('Range', 'bytes=0-3')]), T('if-range/tag+multi', [('Range', 'bytes=0-3,5-8'), ('If-Range', '"abc"')]),
+        T('if-range-range', [('If-Range', FUTURE)]), T('inm+range', [('If-None-Match', '*'), ('Range', 'bytes=0-3,5-8')]), T('ims+range', [('If-Modified-Since', FUTURE), ('Range', 'bytes=0-0')]),
+        # the connection after the answer
+        T('conn/keep-alive', [('Connection', 'keep-alive')]), T('conn/close', [('Connection', 'close')]), T('conn/Keep-Alive', [('Connection', 'Keep-Alive'), ('Keep-Alive', 'timeout=5, max=1000')]),
+        T('conn/keep-alive/1.0', [('Connection', 'keep-alive')], b'', 'HTTP/1.0'), T('conn/none/1.0', [], b'', 'HTTP/1.0'), T('conn/list', [('Connection', 'keep-alive, Upgrade, TE')]),
+        T('upgrade/ws', [('Connection', 'Upgrade'), ('Upgrade', 'websocket'), ('Sec-WebSocket-Key', 'dGhlIHNhbXBsZSBub25jZQ=='), ('Sec-WebSocket-Version', '13')]),
+        T('upgrade/h2c', [('Connection', 'Upgrade, HTTP2-Settings'), ('Upgrade', 'h2c'), ('HTTP2-Settings', 'AAMAAABkAAQAAP__')]), T('upgrade-conn', [('Upgrade', 'websocket')]),
+        T('upgrade/tls', [('Upgrade', 'TLS/1.0, HTTP/1.1'), ('Connection', 'upgrade')]), T('te/trailers', [('TE', 'trailers'), ('Connection', 'TE')]), T('te/gzip', [('TE', 'gzip;q=0.5, chunked')]),
+        T('early-data', [('Early-Data', '1')]), T('uir', [('Upgrade-Insecure-Requests', '1'), ('Host', 'h.example')]),
+        # the bytes after the head against what the head says about them
+        T('chunked', [('Transfer-Encoding', 'chunked')], CHUNKED), T('chunked-body', [('Transfer-Encoding', 'chunked')]), T('chunked+cl', [('Transfer-Encoding', 'chunked'), ('Content-Length', '7')], CHUNKED),
+        T('cl+chunked', [('Content-Length', '17'), ('Transfer-Encoding', 'chunked')], CHUNKED), T('te/gzip,chunked', [('Transfer-Encoding', 'gzip, chunked')], CHUNKED),
+        T('te/identity', [('Transfer-Encoding', 'identity')], FORM), T('te/Chunked', [('transfer-encoding', 'Chunked')], CHUNKED), T('te x2', [('Transfer-Encoding', 'gzip'), ('Transfer-Encoding', 'chunked')], CHUNKED),
+        T('ce/gzip', [('Content-Encoding', 'gzip')], gz(FORM)),
+        T('ce/gzip-not', [('Content-Encoding', 'gzip')], FORM), T('ce/identity', [('Content-Encoding', 'identity')], FORM), T('ce/br', [('Content-Encoding', 'br')], b'\x0b\x02\x80a=1\x03'),
+        T('md5/ok', [('Content-MD5', b64(hashlib.md5(FORM).digest())), ('Content-Length', '7')], FORM), T('md5/wrong', [('Content-MD5', b64(hashlib.md5(b'x').digest()))], FORM),
+        T('md5/not-b64', [('Content-MD5', '!!!not base64!!!')], FORM), T('md5/short', [('Content-MD5', 'AAAA')], FORM), T('md5-body', [('Content-MD5', b64(hashlib.md5(b'').digest()))]),
+        T('digest', [('Digest', 'sha-256=' + b64(hashlib.sha256(FORM).digest())), ('Want-Digest', 'sha-256')], FORM), T('content-digest', [('Content-Digest', 'sha-256=:' + b64(hashlib.sha256(b'x').digest()) + ':')], FORM),
+        T('trailer', [('Trailer', 'Expires'), ('Transfer-Encoding', 'chunked')], b'7\r\na=1&b=2\r\n0\r\nExpires: 0\r\nVary: ' + MARK.encode() + b'\r\n\r\n'),
+        # who asks, on whose behalf, for which host
+        T('fwd', [('Forwarded', 'for=192.0.2.60;proto=http;by=203.0.113.43;host=h.example')]), T('fwd/v6', [('Forwarded', 'for="[2001:db8:cafe::17]:4711"')]), T('fwd/list', [('Forwarded', 'for=192.0.2.43, for=198.51.100.17')]),
+        T('xff', [('X-Forwarded-For', '203.0.113.195, 2001:db8:85a3:8d3:1319:8a2e:370:7348, 198.51.100.2')]), T('xfh', [('X-Forwarded-Host', 'evil.example'), ('X-Forwarded-Proto', 'https'), ('X-Forwarded-Port', '8443')]),
+        T('xfp/odd', [('X-Forwarded-Proto', 'gopher'), ('X-Forwarded-Port', '99999'), ('X-Real-IP', 'not-an-ip')]), T('via', [('Via', '1.1 proxy.example (squid)'), ('Max-Forwards', '3')]),
+        T('host/none', []), T('host/x2', [('Host', 'a.example'), ('Host', 'b.example')]), T('host/port', [('Host', 'localhost:7878')]), T('host/ip', [('Host', '127.0.0.1:7878')]), T('host/v6', [('Host', '[::1]:7878')]),
+        T('host/bad-port', [('Host', 'localhost:99999')]), T('host/empty', [('Host', '')]), T('host/other', [('Host', 'evil.example')]), T('host/1.0', [('Host', 'h')], b'', 'HTTP/1.0'), T('host/userinfo', [('Host', 'a@b:c')]),
+        T('mf/0', [('Max-Forwards', '0')]), T('mf/1', [('Max-Forwards', '1')]), T('mf/-1', [('Max-Forwards', '-1')]), T('mf/x', [('Max-Forwards', 'x')]), T('mf/huge', [('Max-Forwards', '9' * 25)]),
+        T('prefer/minimal', [('Prefer', 'return=minimal')]), T('prefer/repr', [('Prefer', 'return=representation')]), T('prefer/async', [('Prefer', 'respond-async, wait=10')]), T('prefer/odd', [('Prefer', 'handling=lenient; x="a, b"')]),
+        T('cookie', [('Cookie', 'session=abc; theme=dark')]), T('cookie/odd', [('Cookie', '=; ;;a; b=')]), T('cookie x2', [('Cookie', 'a=1'), ('Cookie', 'a=2')]), T('cookie/long', [('Cookie', 'session=' + 's' * 4000)]),
+        T('cookie/quoted', [('Cookie', 'a="x\\"y"; b=%22')]), T('auth/basic', [('Authorization', 'Basic ' + b64('user:pass'))]), T('auth/basic-crlf', [('Authorization', 'Basic ' + b64('us\r\nVary: ' + MARK + '\r\n:pw'))]),
+        T('auth/basic-bad', [('Authorization', 'Basic !!!')]), T('auth/basic-none', [('Authorization', 'Basic')]), T('auth/basic-not-utf8', [('Authorization', 'Basic ' + b64(b'\xff\xfe:\x80'))]),
+        T('auth/basic-nocolon', [('Authorization', 'Basic ' + b64('user'))]), T('auth/bearer', [('Authorization', 'Bearer abc.def.ghi')]), T('auth/digest', [('Authorization', 'Digest username="a", realm="r\\"", nonce=""')]),
+        T('auth/empty', [('Authorization', '')]), T('auth/basic-lower', [('authorization', 'basic ' + b64(':'))]), T('proxy-auth', [('Proxy-Authorization', 'Basic ' + b64('a:b')), ('Proxy-Connection', 'keep-alive')]),
+        # what the client accepts
+        T('accept/html', [('Accept', 'text/html')]), T('accept/json', [('Accept', 'application/json')]), T('accept/none', [('Accept', '*/*;q=0')]), T('accept/img', [('Accept', 'image/*, */*;q=0.1')]), T('accept/empty', [('Accept', '')]),
+        T('accept-charset', [('Accept-Charset', 'utf-16, iso-8859-5;q=0')]), T('accept-lang', [('Accept-Language', 'de-CH, *;q=0')]), T('ae/gzip', [('Accept-Encoding', 'gzip')]), T('ae/none', [('Accept-Encoding', 'identity;q=0, *;q=0')]),
+        T('ae+range', [('Accept-Encoding', 'gzip, br'), ('Range', 'bytes=0-3,5-8')]), T('cache/no-cache', [('Cache-Control', 'no-cache'), ('Pragma', 'no-cache')]), T('cache/only-if-cached', [('Cache-Control', 'only-if-cached')]),
+        T('cache/max-age', [('Cache-Control', 'max-age=0, no-transform')]), T('hints', [('Sec-CH-UA-Mobile', '?1'), ('Device-Memory', '8'), ('Downlink', '1.5'), ('ECT', '4g'), ('RTT', '50'), ('Save-Data', 'on'), ('DPR', '2.0'), ('Viewport-Width', '320'), ('Width', '640')]),
+        T('pna', [('Origin', 'http://o'), ('Access-Control-Request-Method', 'GET'), ('Access-Control-Request-Private-Network', 'true')]), T('fetch-meta', [('Origin', 'null'), ('Sec-Fetch-Mode', 'cors'), ('Sec-Fetch-Site', 'cross-site'), ('Sec-Fetch-Dest', 'empty')]),
+        T('override/head', [('X-HTTP-Method-Override', 'HEAD')]), T('override/options', [('X-HTTP-Method', 'OPTIONS'), ('X-Method-Override', 'OPTIONS')]), T('override/get', [('X-HTTP-Method-Override', 'GET')], FORM),
+        T('dnt', [('DNT', '1'), ('Sec-GPC', '1')]), T('from-ua-ref', [('From', 'a@b.example'), ('User-Agent', 'curl/8.0 (x; y) z/1'), ('Referer', 'http://r.example/p?q=1#f')]), T('last-event-id', [('Last-Event-ID', '7'), ('Accept', 'text/event-stream')]),
+    ]
+    # a line break that exists only after DECODING, on every header a feature may start to read (and to reflect)
+    for name in ('Expect', 'Accept-Encoding', 'If-Modified-Since', 'If-None-Match', 'If-Range', 'If-Match', 'Connection', 'Upgrade', 'TE', 'Transfer-Encoding', 'Content-Encoding', 'Content-MD5',
+                 'Forwarded', 'X-Forwarded-For', 'X-Forwarded-Host', 'X-Forwarded-Proto', 'Prefer', 'Max-Forwards', 'Cookie', 'Authorization', 'Host', 'Referer', 'User-Agent', 'Accept', 'Accept-Language',
+                 'Content-Type', 'Content-Location', 'X-Request-Id', 'Origin', 'Access-Control-Request-Headers', 'Access-Control-Request-Method', 'Access-Control-Request-Private-Network', 'Range'):
+        hs = [('Origin', 'http://o')] if name.startswith('Access-') else []
+        t.append(T('decoded-break:' + name, hs + [(name, 'v' + INJ)]))
+    for name in ('Cookie', 'Forwarded', 'Prefer', 'If-None-Match', 'X-Forwarded-Host', 'Authorization'):
+        t.append(T('quoted-break:' + name, [(name, 'a="x\\r\\nVary: %s"' % MARK)]))
+        t.append(T('double-decoded-break:' + name, [(name, 'v%250d%250aVary:%2520' + MARK)]))
+    return t
+
+def add_twins(cases):
+    """for every case on a transport script that does not fail: the same request on a transport that accepts everything (the judge
+    compares what the peer received in pieces with what it receives at once)"""
+    have = {(id(c.tree), c.entry, c.raw, c.app, c.alloc, c.flush) for c in cases if c.ws == 'all'}
+    out = []
+    for c in cases:
+        k = (id(c.tree), c.entry, c.raw, c.app, c.alloc, c.flush)
+        if c.ws != 'all' and not c.ws.startswith('e:') and k not in have and ' e ' not in c.line:
+            have.add(k)
+            out.append(K.mk(c.tree, c.method, c.target, c.headers, entry=c.entry, flush=c.flush, app=c.app, alloc=c.alloc, raw=c.raw, kind=c.kind, note=c.note))
+    return cases + out
+
+TARGETS_DECODED = ['/docs' + INJ, '/docs?x=' + INJ.lstrip('/'), '/docs/' + INJ, '/s100.bin' + INJ, '/missing' + INJ, '/' + INJ, '/?' + INJ, '/docs#' + INJ, '/%0d%0a', '/docs%0d%0a%0d%0a<html>', '/docs%0aVary:%20' + MARK,
+                   '/docs%0dVary:%20' + MARK, '/%250d%250aVary:%2520' + MARK, '/docs%E2%80%A8Vary:%20' + MARK, '/%ff', '/%c3', '/%00', '/s100.bin%00.txt', '/%E2%82%AC.txt', '/%e2%82%ac.txt', '/%E2%82', '/s100%2Ebin', '/%73100.bin',
+                   '/docs%2F', '/docs%2Findex.html', '/%2e%2e/%2e%2e/x', '/s100.bin%', '/s100.bin%4', '/a+b', '/docs/?' + 'q=' + 'é' * 40, '//docs', '/docs//', '/./docs', '/docs/.', '/DOCS', '/docs;v=1', '/docs\\']
+
+def feature_batch(rng, tier, part=0, parts=1):
+    tree = S.gen_tree(rng, small=True); own_files(tree)
+    tree.file(tree.cwd + '/€.txt'.encode(), 'euro'.encode())
+    quick = tier == 'quick'
+    cases = []
+    trig = triggers()[part::parts]
+    others = ['/missing', '/', '/docs/', '/docs', '/about', '/empty.txt', '/ln.txt', 'x', '/style.css', '/form-get-method?a=1']
+    posts = ['/form-url-encoded-enctype-post-method', '/form-multipart-enctype-post-method', '/file-upload/initiate?name=a&lastModified=1&size=2']
+    def one(m, t, tr, e, ws='all', kind='feature'):
+        tag, hs, body, ver = tr
+        hs = list(hs)
+        if t == posts[0] and not any(n.lower() == 'content-type' for n, _ in hs): hs.append(('Content-Type', 'application/x-www-form-urlencoded'))
+        if t == posts[1] and not any(n.lower() == 'content-type' for n, _ in hs): hs.append(('Content-Type', 'multipart/form-data; boundary=B')); body = body or MULTIPART_BODIES[0][1]
+        if tag != 'host/none' and ver == 'HTTP/1.1' and not any(n.lower() == 'host' for n, _ in hs) and rng.chance(2, 3): hs.insert(0, ('Host', 'localhost'))
+        return K.mk(tree, m, t, hs, body, ver, entry=e, ws=ws, kind=kind, note=MARK)
+    for tr in trig:
+        if quick:
+            for m in ('GET', 'HEAD', 'OPTIONS'): cases.append(one(m, '/s100.bin', tr, rng.choice(['proc', 'preq'])))
+            cases.append(one('POST', rng.choice(posts), tr, rng.choice(['proc', 'preq'])))
+            cases.append(one(rng.choice(G.METHODS), rng.choice(others), tr, rng.choice(['proc', 'preq'])))
+        else:
+            for e in ('proc', 'preq'):
+                for m in ('GET', 'HEAD', 'OPTIONS', 'TRACE', 'PUT'):
+                    for t in ['/s100.bin'] + others: cases.append(one(m, t, tr, e))
+                for t in posts + ['/s100.bin']: cases.append(one('POST', t, tr, e))
+    # the place a new answer is written from is a new write site: the triggers a feature answers by itself, under short writes
+    own_answer = [tr for tr in triggers() if tr[0] in ('expect+cl+body', 'expect', 'ims/future', 'inm/*', 'conn/keep-alive', 'upgrade/ws', 'chunked', 'host/none', 'ae/gzip', 'if-range/past', 'mf/0', 'auth/basic', 'accept/none', 'md5/wrong', 'conn/keep-alive/1.0', 'im/tag')]
+    ss = ['c:1', 'c:2', 'c:7', 'c:24', 'c:25', 'c:26', 'c:100', 's:1', 's:10.1', 's:25', 's:26.1', 's:24.1.1', 's:300.1.2.3', 's:25.0', 'c:0'] if quick else \
+         ['c:%d' % n for n in list(range(0, 40)) + [64, 100, 1000]] + ['s:%d' % n for n in range(1, 60)] + ['s:%d.0' % n for n in (1, 24, 25, 26, 100, 1200)] + ['s:25.1.1', 's:26.1', 's:300.1.2.3']
+    if part == 0:
+        for tr in own_answer:
+            for m in ('GET', 'HEAD') if quick else ('GET', 'HEAD', 'OPTIONS', 'POST'):
+                for ws in ss:
+                    cases.append(one(m, '/s100.bin' if m != 'POST' else posts[0], tr, rng.choice(['proc', 'preq']) if quick else 'proc', ws=ws, kind='feature-short-write'))
+                    if not quick: cases.append(one(m, '/s100.bin' if m != 'POST' else posts[0], tr, 'preq', ws=ws, kind='feature-short-write'))
+        # the request target, reflected by a redirect (directory without its slash), a Content-Location, an error page - decoded first
+        plain = T('target', [])
+        for t in TARGETS_DECODED:
+            for m in ('GET', 'HEAD', 'OPTIONS') if quick else G.METHODS:
+                for e in (rng.choice(['proc', 'preq']),) if quick else ('proc', 'preq'):
+                    cases.append(one(m, t, plain if rng.chance(1, 2) else T('target+host', [('Host', 'h.example'), ('X-Forwarded-Proto', 'https')]), e, kind='decoded-target'))
+    return tree, add_twins(cases)
+
+# ------------------------------------------------------------------------------------------------ files next to the served ones
+def gz(data):
+    c = zlib.compressobj(9, zlib.DEFLATED, 31); return c.compress(data) + c.flush()
+
+def neighbours(tree):
+    """precompressed variants and other companions of served files; a dict keeps the order of creation: `stale.txt.gz` is OLDER than
+    `stale.txt`, every other companion is younger than its file"""
+    root = tree.cwd + b'/'
+    text = b'The quick brown fox jumps over the lazy dog. ' * 8
+    tree.file(root + b'enc.txt', text).file(root + b'enc.txt.gz', gz(text)).file(root + b'enc.txt.br', b'\x1b\x67\x01\x00' + b'B' * 60)
+    css = bytes((j * 7 + 1) & 0xff for j in range(5000))
+    tree.file(root + b'big.css', css).file(root + b'big.css.gz', gz(css) + b'\0' * 900)                  # the companion is LARGER
+    tree.file(root + b'zero.js', b'').file(root + b'zero.js.gz', gz(b''))                              # empty file, companion is not
+    tree.file(root + b'full.html', b'<p>' + b'x' * 200 + b'</p>').file(root + b'full.html.gz', b'')     # companion is empty
+    tree.file(root + b'stale.txt.gz', gz(b'the old text')).file(root + b'stale.txt', b'the new text, longer than the old one')
+    tree.file(root + b'same.bin', b'S' * 64).file(root + b'same.bin.gz', b'Z' * 64)                    # same size, other bytes
+    tree.file(root + b'docs/index.html.gz', gz(b'<p>docs index</p>')).file(root + b'about.html.gz', gz(b'<p>about</p>'))
+    tree.file(root + b'404.html', b'<p>own 404 page</p>').file(root + b'404.html.gz', gz(b'<p>own 404 page</p>'))
+    tree.file(root + b'only.txt.gz', gz(b'there is no only.txt'))                                     # companion without its file
+    tree.file(root + b'enc.txt.gz.gz', b'twice').file(root + b'dir.gz/index.html', b'<p>a directory named like a companion</p>')
+    tree.file(root + b'enc.txt.etag', b'"abc"\r\nVary: ' + MARK.encode()).file(root + b'enc.txt.headers', b'X-Meta: 1\r\nVary: ' + MARK.encode() + b'\r\n')
+    tree.file(root + b'boundary.txt', b'a\r\n--String_separator\r\nContent-Type: text/plain\r\n\r\nb\r\n--String_separator--\r\n')
+    tree.link(root + b'lnk.gz', b'enc.txt.gz').link(root + b'enc2.txt', b'enc.txt')
+
+AE = ['gzip', 'gzip, deflate, br', 'br', '*', 'gzip;q=0', 'identity', 'gzip;q=0.5, identity;q=1', 'GZIP', 'x-gzip', '', 'deflate', 'zstd', 'identity;q=0', 'gzip , br', 'br;q=1.0, gzip;q=0.8, *;q=0.1', 'gzip;q=abc']
+
+def neighbour_batch(rng, tier):
+    tree = S.gen_tree(rng, small=True); own_files(tree); neighbours(tree)
+    quick = tier == 'quick'
+    cases = []
+    files = ['/enc.txt', '/big.css', '/zero.js', '/full.html', '/stale.txt', '/same.bin', '/docs/', '/docs', '/about', '/missing', '/only.txt', '/enc.txt.gz', '/dir.gz', '/enc2.txt', '/lnk.gz', '/boundary.txt', '/']
+    def mk(m, t, hs, e=None, ws='all', kind='neighbour'): return K.mk(tree, m, t, hs, entry=e or rng.choice(['proc', 'preq']), ws=ws, kind=kind, note=MARK)
+    for k, ae in enumerate(AE):
+        for t in files:
+            if quick and k >= 6 and not rng.chance(1, 4): continue
+            for m in ('GET', 'HEAD', 'OPTIONS'):
+                for e in ('proc', 'preq') if not quick else (None,):
+                    cases.append(mk(m, t, [('Accept-Encoding', ae)] + ([('Origin', 'http://o')] if rng.chance(1, 3) else []), e))
+    for t in files:                                   # encoding and ranges: of which bytes?
+        for rv in ('bytes=0-3', 'bytes=0-3,5-8', 'bytes=-5', 'bytes=100-', 'bytes=0-') if quick else RANGES:
+            for m in ('GET', 'HEAD') if quick else ('GET', 'HEAD', 'OPTIONS'):
+                cases.append(mk(m, t, [('Accept-Encoding', 'gzip, br'), ('Range', rv)] if rng.chance(1, 2) else [('Range', rv), ('Accept-Encoding', 'gzip')]))
+                if not quick: cases.append(mk(m, t, [('Range', rv), ('Accept-Encoding', 'gzip'), ('If-Range', PAST)]))
+    for t in ('/enc.txt', '/big.css', '/zero.js', '/full.html', '/missing'):                        # a new body source under short writes
+        for ws in ('c:1', 'c:7', 'c:100', 'c:4096', 's:1', 's:1200.1', 's:1300.0') if quick else scripts(rng, 'quick') + ['c:0', 's:1300.0']:
+            cases.append(mk('GET', t, [('Accept-Encoding', 'gzip')], 'proc', ws=ws, kind='neighbour-short-write'))
+            cases.append(mk('GET', t, [('Accept-Encoding', 'br, gzip')], 'preq', ws=ws, kind='neighbour-short-write'))
+    # one-step histories: the answer to a request must not depend on the one before it (a cache of one or of many entries, a buffer
+    # that is reused, a companion that is written when first asked for): the same path again with another method, range, encoding,
+    # origin - adjacent, in one process
+    gzh, org = [('Accept-Encoding', 'gzip')], [('Origin', 'http://o')]
+    seqs = [[('GET', []), ('HEAD', []), ('GET', [])], [('HEAD', []), ('GET', [])], [('OPTIONS', []), ('GET', []), ('OPTIONS', [])], [('GET', gzh), ('GET', []), ('GET', gzh), ('HEAD', gzh), ('GET', [('Accept-Encoding', 'identity')])],
+            [('GET', [('Range', 'bytes=0-3')]), ('GET', []), ('GET', [('Range', 'bytes=0-3,5-8')]), ('GET', [('Range', 'bytes=5-8')]), ('HEAD', [('Range', 'bytes=0-3,5-8')]), ('GET', [])],
+            [('GET', org), ('GET', []), ('GET', [('Origin', 'http://other')]), ('OPTIONS', org + [('Access-Control-Request-Method', 'PUT')]), ('GET', org)],
+            [('GET', [('If-None-Match', '*')]), ('GET', []), ('GET', [('If-Modified-Since', FUTURE)]), ('GET', [])], [('POST', []), ('GET', []), ('PUT', []), ('GET', []), ('DELETE', []), ('HEAD', [])],
+            [('GET', [('Connection', 'keep-alive')]), ('GET', [('Connection', 'close')]), ('GET', [])], [('GET', []), ('GET', []), ('GET', [])]]
+    for t in ('/enc.txt', '/zero.js', '/missing', '/', '/docs/', '/about', '/form-get-method?a=1', 'x', '/big.css') if quick else files + ['/form-get-method?a=1', 'x', '/s4096.bin']:
+        for seq in seqs:
+            for e in ('proc', 'preq') if not quick else (rng.choice(['proc', 'preq']),):
+                for m, hs in seq: cases.append(mk(m, t, hs, e, kind='history'))
+    # many distinct requests, then the first ones again (a table with a capacity: 16, 64, 128, 256 entries)
+    n = 300 if quick else 1100
+    for rnd in (0, 1):
+        for i in list(range(n)) if rnd == 0 else [0, 1, 2, n - 1, n // 2, 15, 16, 17, 63, 64, 65, 127, 128, 129, 255, 256, 257]:
+            if i >= n: continue
+            cases.append(mk(('GET', 'HEAD', 'GET', 'OPTIONS')[i % 4] if rnd == 0 else 'GET', '/enc.txt?k=%d' % i if i % 3 else '/k%d.missing' % i, gzh if i % 2 else [], 'proc' if i % 5 else 'preq', kind='history-many'))
+    return tree, add_twins(cases)
+
+# ------------------------------------------------------------------------------------------------ the wire
+def wide(width, shift, nbytes):
+    ch = {2: 'é', 3: '€', 4: '\U0001f600'}[width]
+    return 'a' * shift + ch * ((nbytes - shift) // width)
+
+def wire_batch(rng, tier):
+    tree = S.gen_tree(rng, small=True); own_files(tree)
+    quick = tier == 'quick'
+    cases = []
+    # a peer that stops taking bytes: at once, after one byte, inside the head, inside the body, after a few short writes
+    zero = ['c:0', 's:0', 's:1.0', 's:100.0', 's:1100.0', 's:5.3.0'] + ([] if quick else ['s:%d.0' % k for k in range(2, 1400, 9)])
+    for name, f in sites(tree):
+        for ws in zero: cases.append(f(ws, 'ok'))
+        cases.append(f('s:7.0', 'e'))
+    # several requests sent in one go (what follows the first head is the next request, not a body)
+    def r(m, t, hs=(), body=b''): return G.req(m, t, 'HTTP/1.1', [('Host', 'h')] + list(hs), body)
+    pipes = [(['GET', 'GET'], r('GET', '/s100.bin') + r('GET', '/one.txt')), (['HEAD', 'GET'], r('HEAD', '/s100.bin') + r('GET', '/one.txt')), (['GET', 'HEAD'], r('GET', '/one.txt') + r('HEAD', '/s100.bin')),
+             (['OPTIONS', 'GET'], r('OPTIONS', '/s100.bin') + r('GET', '/one.txt')), (['GET', 'GET'], r('GET', '/missing') + r('GET', '/s100.bin')), (['GET', 'GET', 'GET'], r('GET', '/empty.txt') * 3),
+             (['POST', 'GET'], r('POST', '/form-url-encoded-enctype-post-method', [('Content-Type', 'application/x-www-form-urlencoded'), ('Content-Length', '7')], FORM) + r('GET', '/one.txt')),
+             (['GET', 'GET'], r('GET', '/s100.bin', [('Connection', 'keep-alive')]) + r('GET', '/one.txt', [('Connection', 'close')])), (['GET', 'GET'], r('GET', '/s100.bin', [('Range', 'bytes=0-3,5-8')]) + r('GET', '/one.txt')),
+             (['GET', 'GET'], r('GET', '/s100.bin') + b'\r\n' + r('GET', '/one.txt')), (['GET', 'GET'], r('GET', '/s100.bin') + b'BOGUS / HTTP/1.1\r\n\r\n'), (['GET', 'HEAD'], r('GET', 'x') + r('HEAD', '/s100.bin')),
+             (['HEAD', 'HEAD'], r('HEAD', '/s100.bin', [('Connection', 'keep-alive')]) * 2), (['GET', 'GET'], r('GET', '/s100.bin', [('Connection', 'keep-alive')]) + r('GET', '/one.txt')[:9])]
+    for ms, raw in pipes:
+        for e in ('proc', 'preq'):
+            for ws in ('all', 'c:7') + (() if quick else ('c:1', 's:1300.1', 's:1400.0')):
+                cases.append(_raw_case(tree, ','.join(ms), raw, entry=e, ws=ws, kind='pipelined'))
+    # Content-Length against the bytes that follow the head (7 of them)
+    cls = ['0', '1', '6', '7', '8', '100', '9999', '10000', '10001', '100000', str(2**31), str(2**32), str(2**63), str(2**64 - 1), str(2**64), '-1', '+7', '7 ', ' 7', '07', '0x7', '7,7', '7, 8', '', 'seven', '7.0', '1e1']
+    for cl in cls:
+        for t, ct, body in (('/form-url-encoded-enctype-post-method', 'application/x-www-form-urlencoded', FORM), ('/form-multipart-enctype-post-method', MULTIPART_BODIES[0][0], MULTIPART_BODIES[0][1]),
+                            ('/file-upload/initiate?name=a&lastModified=1&size=2', 'application/octet-stream', FORM), ('/s100.bin', 'text/plain', FORM)):
+            for m in ('POST', 'GET', 'HEAD') if t == '/s100.bin' else ('POST',):
+                if quick and t != '/form-url-encoded-enctype-post-method' and not rng.chance(1, 3): continue
+                cases.append(K.mk(tree, m, t, [('Content-Type', ct), (rng.choice(['Content-Length', 'Content-Length', 'content-length']), cl)], body, entry=rng.choice(['proc', 'preq']), kind='length-vs-body'))
+    for a, b in (('7', '7'), ('7', '8'), ('8', '7'), ('0', '7'), ('7', '')):
+        cases.append(K.mk(tree, 'POST', '/form-url-encoded-enctype-post-method', [('Content-Type', 'application/x-www-form-urlencoded'), ('Content-Length', a), ('Content-Length', b)], FORM, entry=rng.choice(['proc', 'preq']), kind='length-vs-body'))
+    # chunked bodies, well-formed and not
+    chunks = [CHUNKED, b'0\r\n\r\n', b'7\r\na=1&b=2\r\n', b'7;ext=1\r\na=1&b=2\r\n0\r\n\r\n', b'ffffffffffffffff\r\na=1\r\n0\r\n\r\n', b'fffffffffffffffff\r\na\r\n0\r\n\r\n', b'zz\r\na=1\r\n0\r\n\r\n', b'64\r\na=1&b=2\r\n0\r\n\r\n',
+              b'-1\r\na\r\n0\r\n\r\n', b'7\na=1&b=2\n0\n\n', b'3\r\na=1\r\n4\r\n&b=2\r\n0\r\n\r\n', b'7\r\na=1&b=2\r\n0\r\nVary: ' + MARK.encode() + b'\r\n\r\n', b'7\r\na=1&b=2XX0\r\n\r\n', b'\r\n', b'', b'7\r\n\xff\xfe\xfd\xfc\xfb\xfa\xf9\r\n0\r\n\r\n',
+              b'1\r\na\r\n' * 300 + b'0\r\n\r\n', b' 7 \r\na=1&b=2\r\n0\r\n\r\n', b'0x7\r\na=1&b=2\r\n0\r\n\r\n']
+    for body in chunks:
+        for t, ct in (('/form-url-encoded-enctype-post-method', 'application/x-www-form-urlencoded'), ('/form-multipart-enctype-post-method', 'multipart/form-data; boundary=B'), ('/s100.bin', 'text/plain')):
+            for e in ('proc', 'preq'):
+                if quick and t != '/form-url-encoded-enctype-post-method' and not rng.chance(1, 3): continue
+                cases.append(K.mk(tree, 'POST' if t != '/s100.bin' else rng.choice(['GET', 'HEAD', 'POST']), t, [('Content-Type', ct), ('Transfer-Encoding', 'chunked')], body, entry=e, kind='chunked-body', note=MARK))
+    # the request buffer ends inside the request line, at every byte of the blank line, inside the body, inside a multi-byte character
+    for m in ('GET', 'HEAD', 'OPTIONS'):
+        raw = G.req(m, '/s100.bin', 'HTTP/1.1', [('Origin', 'http://o'), ('Range', 'bytes=0-3,5-8')], b'')
+        line = raw.index(b'\r\n') + 2
+        for alloc in list(range(0, line + 2)) + list(range(len(raw) - 6, len(raw) + 3)):
+            cases.append(_raw_case(tree, m, raw, entry='proc', alloc=alloc, kind='buffer-cut'))
+    raw = G.req('POST', '/form-url-encoded-enctype-post-method', 'HTTP/1.1', [('Content-Type', 'application/x-www-form-urlencoded'), ('Content-Length', '7')], FORM)
+    for alloc in range(len(raw) - 13, len(raw) + 3): cases.append(_raw_case(tree, 'POST', raw, entry='proc', alloc=alloc, kind='buffer-cut'))
+    raw = G.req('OPTIONS', '/s100.bin', 'HTTP/1.1', [('Origin', 'http://€€€.example'), ('Access-Control-Request-Headers', 'X-\U0001f600')], b'')
+    for alloc in range(raw.index(b'Origin'), len(raw) + 1): cases.append(_raw_case(tree, 'OPTIONS', raw, entry='proc', alloc=alloc, kind='buffer-cut'))
+    for total in (9998, 9999, 10000, 10001, 10002, 20000):           # the request as long as the buffer (both entry points), one byte less, one more
+        for m, t in (('GET', '/s100.bin'), ('HEAD', '/s100.bin'), ('OPTIONS', '/s100.bin'), ('POST', '/form-url-encoded-enctype-post-method')):
+            base = G.req(m, t, 'HTTP/1.1', [('Origin', 'http://o'), ('Content-Type', 'application/x-www-form-urlencoded'), ('X-Pad', '')], b'')
+            inhead = G.req(m, t, 'HTTP/1.1', [('Origin', 'http://o'), ('Content-Type', 'application/x-www-form-urlencoded'), ('X-Pad', 'p' * (total - len(base)))], b'')
+            inbody = base + b'a=' + b'v' * (total - len(base) - 2)
+            for raw in (inhead, inbody, inhead[:-2], inhead[:-4] + b'\r\n'):
+                cases.append(_raw_case(tree, m, raw, entry=rng.choice(['proc', 'preq']), kind='buffer-full'))
+    # values longer than any cut (64 .. 8192 bytes) made of 2-, 3- and 4-byte characters in every alignment: a line of a log, a
+    # key of a table, a fixed buffer must not be cut inside a character
+    names = ['User-Agent', 'Referer', 'Origin', 'Cookie', 'X-Forwarded-For', 'Accept-Language', 'Host', 'Authorization', 'If-None-Match', 'Access-Control-Request-Headers', 'Range', 'Content-Type']
+    for width in (2, 3, 4):
+        for shift in range(width):
+            for nbytes in (700, 4200, 9300) if not quick else (700, 9300 if (width + shift) % 2 else 4200):
+                v = wide(width, shift, nbytes)
+                for name in names if not quick else [names[(width * 5 + shift * 3 + nbytes) % len(names)], names[(width + shift * 7 + nbytes // 100) % len(names)], 'User-Agent']:
+                    m = 'OPTIONS' if name.startswith('Access-') else rng.choice(['GET', 'GET', 'HEAD', 'POST', 'OPTIONS'])
+                    hs = ([('Origin', 'http://o')] if name.startswith('Access-') else []) + [(name, v)]
+                    cases.append(K.mk(tree, m, rng.choice(['/s100.bin', '/missing', '/', '/form-get-method?a=1']), hs, entry=rng.choice(['proc', 'preq']), kind='wide-value'))
+                cases.append(K.mk(tree, 'GET', '/s100.bin?q=' + v[:3000], [], entry=rng.choice(['proc', 'preq']), kind='wide-value'))
+                cases.append(K.mk(tree, 'GET', '/' + v[:600] + '/' + v[:900] + '.txt', [], entry=rng.choice(['proc', 'preq']), kind='wide-value'))
+                cases.append(K.mk(tree, 'GET', '/form-get-method?' + v[:300] + '=' + v[:2000], [], entry=rng.choice(['proc', 'preq']), kind='wide-value'))
+    # very many ranges, very many header lines (a table of parts / of headers with a capacity)
+    for n in (41, 64, 65, 100, 128, 129, 256, 257, 300) if not quick else (65, 129, 300):
+        rv = 'bytes=' + ','.join('%d-%d' % (i % 97, i % 97) for i in range(n))
+        for m in ('GET', 'HEAD', 'OPTIONS'): cases.append(K.mk(tree, m, '/s100.bin', [('Range', rv)], entry=rng.choice(['proc', 'preq']), kind='many-parts'))
+        hs = [('X-H%d' % i, 'v') for i in range(n)]
+        for m in ('GET', 'HEAD'): cases.append(K.mk(tree, m, '/s100.bin', hs[:n // 2] + [('Origin', 'http://o')] + hs[n // 2:], entry=rng.choice(['proc', 'preq']), kind='many-headers'))
+    return tree, add_twins(cases)
+
+def second_pass_batches(rng, tier):
+    if tier == 'quick': return [feature_batch(rng, tier), neighbour_batch(rng, tier), wire_batch(rng, tier)]
+    return [feature_batch(rng, tier, k, 6) for k in range(6)] + [neighbour_batch(rng, tier), wire_batch(rng, tier)]
